@@ -538,6 +538,18 @@ leaps_before(struct dt_dt_s d)
 		on = (res + 1U < nleaps) &&
 			(leaps_s[res + 1] == (int32_t)d.sexy);
 		break;
+	case DT_YWD:
+	case DT_YD:
+	case DT_BIZDA:
+	case DT_LDN:
+	case DT_MDN: {
+		/* no column of their own, go by the day count */
+		const struct dt_d_s dd = dt_dconv(DT_DAISY, d.d);
+
+		res = leaps_before_ui32(leaps_d, nleaps, dd.daisy);
+		on = res + 1 < nleaps && leaps_d[res + 1] == dd.daisy;
+		break;
+	}
 	default:
 		res = 0;
 		on = false;
